@@ -1,10 +1,10 @@
 SPECIFICATION Spec
-CONSTANTS MaxItems = 3
+CONSTANTS MaxItems = 2
  MaxSub = 2
  MaxBlocks = 1
  Budget = 1
  IdOffs <- IdOffs3
- Rules = {"assume", "implies_intr", "implies_elim", "substitution", "theorem", "sorry", "", "subproof", "verif_gap1"}
+ Rules = {"assume", "substitution", "sorry", "subproof"}
  Emit = TRUE
 INVARIANT RefSound
 INVARIANT RefGapFree
